@@ -8,11 +8,13 @@
 -/
 import KB.Backend
 import KB.Lemmas.Coder
+import KB.Lemmas.Pass
 namespace KB
 open Generated
 
 /-! (This file imports neither KB.Lemmas.Scan nor KB.Lemmas.Partition — which cannot be imported together — so that
-both C13 and C20 can use it; the two small facts about the worker it needs are proved here.) -/
+both C13 and C20 can use it; the small facts about the worker it needs are proved here, on top of KB.Lemmas.Pass,
+which imports KB.Scan only.) -/
 
 theorem emitPrev_no_panic (p : Prev) : Act.panic ∉ emitPrev p := by
   unfold emitPrev; split <;> simp
@@ -63,111 +65,117 @@ theorem scanPartitions_total (c : Cfg) (start stop : Bytes) : ∃ parts, scanPar
 
 /-! ### where a worker's panic comes from -/
 
-theorem expireStep_panic {w : WCfg} {r : Rec} {acts : List Act} (he : expireStep w r = some acts)
-    (h : Act.panic ∈ acts) : acts = [.panic] := by
+theorem expireStep_panic {w : WCfg} {live : Bytes} {r : Rec} {acts : List Act}
+    (he : expireStep w live r = some acts) (h : Act.panic ∈ acts) : acts = [.panic] := by
   unfold expireStep at he
-  by_cases h1 : (w.supportTTL || w.timeout == 0) = true
-  · rw [if_pos h1] at he; cases he
-  · rw [if_neg h1] at he
-    by_cases h2 : isEventKey w r.key = true
-    · rw [if_pos h2] at he
-      by_cases h3 : (r.rev == 0) = true
-      · rw [if_pos h3] at he
-        by_cases h4 : r.val.length < 8
-        · rw [if_pos h4] at he; cases he; rfl
-        · rw [if_neg h4] at he
-          split at he
-          · cases he; simp at h
-          · cases he
-      · rw [if_neg h3] at he
-        split at he
-        · cases he; simp at h
-        · cases he
-    · rw [if_neg h2] at he; cases he
+  cases hx : expiry w live r with
+  | panic => rw [hx] at he; cases he; rfl
+  | idx => rw [hx] at he; cases he; simp at h
+  | ver => rw [hx] at he; cases he; simp at h
+  | noLive => rw [hx] at he; cases he
+  | no => rw [hx] at he; cases he
 
-theorem mem_panic_workerStep {w : WCfg} {p : Prev} {r : Rec} (h : Act.panic ∈ (workerStep w p r).1) :
-    expireStep w r = some [.panic] := by
+/-- `compactIfExpired` panics exactly when `expiry` says so -/
+theorem expireStep_eq_panic_iff {w : WCfg} {live : Bytes} {r : Rec} :
+    expireStep w live r = some [.panic] ↔ expiry w live r = .panic := by
+  unfold expireStep
+  cases expiry w live r <;> simp
+
+/-- the loop body below the `compactIfExpired` call never panics (any configuration): a panic of an iteration is
+a panic of `compactIfExpired` -/
+theorem workerStep_no_panic (w : WCfg) (p : Prev) (r : Rec) : Act.panic ∉ (workerStep w p r).1 := by
+  intro h
   unfold workerStep at h
-  cases he : expireStep w r with
-  | some acts =>
-    rw [he] at h
-    simp only at h
-    rw [expireStep_panic he h]
-  | none =>
-    rw [he] at h
-    simp only at h
-    exfalso
-    by_cases hr : r.rev > w.R
-    · simp [hr] at h
-    · simp only [hr, if_false] at h
-      have ha1 : Act.panic ∉ (if r.key != p.key then emitPrev p
-          else if w.compact && decide (p.rev > 0) then [Act.del (encode p.key p.rev) p.key] else []) := by
-        split
-        · exact emitPrev_no_panic p
-        · split <;> simp
-      have ha2 : Act.panic ∉ (if w.compact && isTomb r.val then [Act.del r.ik r.key] else []) := by
-        split <;> simp
-      split at h
-      · split at h
-        · simp only [List.mem_append] at h
-          rcases h with h | h
-          · exact ha1 h
-          · exact ha2 h
-        · simp only [List.mem_append, List.mem_singleton, reduceCtorEq, or_false] at h
-          rcases h with h | h
-          · exact ha1 h
-          · exact ha2 h
+  by_cases hr : r.rev > w.R
+  · simp [hr] at h
+  · simp only [hr, if_false] at h
+    have ha1 : Act.panic ∉ (if r.key != p.key then emitPrev p
+        else if w.compact && decide (p.rev > 0) then [Act.del (encode p.key p.rev) p.key] else []) := by
+      split
+      · exact emitPrev_no_panic p
+      · split <;> simp
+    have ha2 : Act.panic ∉ (if w.compact && isTomb r.val then [Act.del r.ik r.key] else []) := by
+      split <;> simp
+    split at h
+    · split at h
       · simp only [List.mem_append] at h
         rcases h with h | h
         · exact ha1 h
         · exact ha2 h
+      · simp only [List.mem_append, List.mem_singleton, reduceCtorEq, or_false] at h
+        rcases h with h | h
+        · exact ha1 h
+        · exact ha2 h
+    · simp only [List.mem_append] at h
+      rcases h with h | h
+      · exact ha1 h
+      · exact ha2 h
+
+/-- the loop of a worker whose `compactIfExpired` answers "not expired" throughout (`workerLoop`: range reads,
+compactions with expiry off) never panics, whatever the configuration -/
+theorem workerLoop_no_panic (w : WCfg) (p : Prev) (recs : List Rec) : Act.panic ∉ workerLoop w p recs := by
+  induction recs generalizing p with
+  | nil => simpa [workerLoop] using emitPrev_no_panic p
+  | cons x xs ih =>
+    simp only [workerLoop, List.mem_append, not_or]
+    exact ⟨workerStep_no_panic w p x, ih _⟩
+
+theorem workerActs_no_panic (w : WCfg) (recs : List Rec) : hasPanic (workerActs w recs) = false := by
+  cases h : hasPanic (workerActs w recs) with
+  | false => rfl
+  | true =>
+    exact absurd (by simpa [hasPanic, workerActs] using h) (workerLoop_no_panic w {} recs)
 
 /-- where a worker's panic comes from: the TTL pass (`compactIfExpired`) on an engine without native TTL, with a
 non-zero timeout revision, met the REVISION RECORD (revision 0) of an event key whose value is shorter than the 8
 bytes `binary.BigEndian.Uint64` reads — a value the backend never writes (revision-record values are 8 or 9 bytes
-long: C10 `parseRevision_*`). -/
-theorem workerLoop_panic_source {w : WCfg} {p : Prev} {recs : List Rec} (h : Act.panic ∈ workerLoop w p recs) :
+long: C10 `parseRevision_*`). Stated of the worker loop as it runs (`passLoop`: whatever it remembers — `prev`, the
+live event key, the store and the failed key — and whatever the engine answers to its delete calls). -/
+theorem passLoop_panic_source {w : WCfg} {mask : Nat → DelOutcome} {p : Prev} {live : Bytes} {st : CompState}
+    {recs : List Rec} (h : Act.panic ∈ (passLoop w mask p live st recs).1) :
     w.supportTTL = false ∧ w.timeout ≠ 0 ∧
       ∃ r ∈ recs, r.rev = 0 ∧ isEventKey w r.key = true ∧ r.val.length < 8 := by
-  induction recs generalizing p with
-  | nil => exact absurd h (by simpa [workerLoop] using emitPrev_no_panic p)
+  induction recs generalizing p live st with
+  | nil => exact absurd h (by simpa [passLoop] using emitPrev_no_panic p)
   | cons x xs ih =>
-    simp only [workerLoop, List.mem_append] at h
-    rcases h with h | h
-    · have he := mem_panic_workerStep h
-      unfold expireStep at he
-      by_cases h1 : (w.supportTTL || w.timeout == 0) = true
-      · rw [if_pos h1] at he; cases he
-      · rw [if_neg h1] at he
-        have h1' : w.supportTTL = false ∧ w.timeout ≠ 0 := by
-          simp only [Bool.or_eq_true, beq_iff_eq, not_or, Bool.not_eq_true] at h1
-          exact h1
-        by_cases h2 : isEventKey w x.key = true
-        · rw [if_pos h2] at he
-          by_cases h3 : (x.rev == 0) = true
-          · rw [if_pos h3] at he
-            by_cases h4 : x.val.length < 8
-            · exact ⟨h1'.1, h1'.2, x, by simp, by simpa using h3, h2, h4⟩
-            · rw [if_neg h4] at he
-              split at he <;> simp at he
-          · rw [if_neg h3] at he
-            split at he <;> simp at he
-        · rw [if_neg h2] at he; cases he
-    · obtain ⟨a, b, r, hr, hrest⟩ := ih h
+    have lift : (w.supportTTL = false ∧ w.timeout ≠ 0 ∧
+          ∃ r ∈ xs, r.rev = 0 ∧ isEventKey w r.key = true ∧ r.val.length < 8) →
+        w.supportTTL = false ∧ w.timeout ≠ 0 ∧
+          ∃ r ∈ x :: xs, r.rev = 0 ∧ isEventKey w r.key = true ∧ r.val.length < 8 := by
+      rintro ⟨a, b, r, hr, hrest⟩
       exact ⟨a, b, r, by simp [hr], hrest⟩
+    rw [passLoop_cons] at h
+    rcases expiry_cases w live x with hno | ⟨hs, hT, hev, hc⟩
+    · rw [hno] at h
+      simp only [List.mem_append] at h
+      rcases h with h | h
+      · exact absurd h (workerStep_no_panic w p x)
+      · exact lift (ih h)
+    · rcases hc with ⟨_, hr, hv⟩ | ⟨he, _⟩ | ⟨he, _⟩ | ⟨he, _⟩
+      · exact ⟨hs, hT, x, by simp, hr, hev, hv⟩
+      · rw [he] at h
+        simp only [List.mem_cons, reduceCtorEq, false_or] at h
+        exact lift (ih h)
+      · rw [he] at h
+        simp only [List.mem_append] at h
+        rcases h with h | h
+        · exact absurd h (workerStep_no_panic w p x)
+        · exact lift (ih h)
+      · rw [he] at h
+        simp only [List.mem_cons, reduceCtorEq, false_or] at h
+        exact lift (ih h)
 
-theorem workerActs_panic_source {w : WCfg} {recs : List Rec} (h : hasPanic (workerActs w recs) = true) :
+theorem passRun_panic_source {w : WCfg} {mask : Nat → DelOutcome} {st : CompState} {recs : List Rec}
+    (h : hasPanic (passRun w mask st recs).1 = true) :
     w.supportTTL = false ∧ w.timeout ≠ 0 ∧
       ∃ r ∈ recs, r.rev = 0 ∧ isEventKey w r.key = true ∧ r.val.length < 8 := by
-  apply workerLoop_panic_source (p := {})
-  simpa [hasPanic, workerActs] using h
+  apply passLoop_panic_source (mask := mask) (p := {}) (live := []) (st := { st with lastFailed := [] })
+  simpa [hasPanic, passRun] using h
 
 /-- a worker that neither compacts nor expires (a range read) never panics -/
 theorem hasPanic_read (R : Nat) (ttl : Bool) (recs : List Rec) :
-    hasPanic (workerActs { R := R, supportTTL := ttl } recs) = false := by
-  cases h : hasPanic (workerActs { R := R, supportTTL := ttl } recs) with
-  | false => rfl
-  | true => exact absurd rfl (workerActs_panic_source h).2.1
+    hasPanic (workerActs { R := R, supportTTL := ttl } recs) = false :=
+  workerActs_no_panic _ recs
 
 /-- one partition of an unlimited, non-compacting scan always has an output -/
 theorem scanPart_some (c : Cfg) (st : Store) (rev : Nat) (p : Bytes × Bytes) :
@@ -304,7 +312,7 @@ theorem compactRange_pan {c : Cfg} {s : BState} {start stop : Bytes} {rev : Nat}
       rcases hp with hp | hp
       · exact .inl hp
       · right
-        obtain ⟨h1, h2, r, hr, h3⟩ := workerActs_panic_source hp
+        obtain ⟨h1, h2, r, hr, h3⟩ := passRun_panic_source hp
         exact ⟨h1, _, recs, h1, h2, rfl, r, hr, h3⟩
 
 /-- A COMPACTION PANICS IN THE MODEL ONLY IN ITS TTL PASS: on an engine without native TTL, with a non-zero timeout
